@@ -326,7 +326,8 @@ class RankedToApprovalVotes:
                     vote_cands.update(positioned)
                 else:
                     vote_cands.add(positioned)
-            approval[frozenset(vote_cands)] = n_votes
+            key = frozenset(vote_cands)
+            approval[key] = approval.get(key, 0) + n_votes
         return approval
 
 
